@@ -1,3 +1,5 @@
 import Cql.Audit
 import Cql.Props.C10
+import Cql.Props.C10Dispatch
 #audit_namespace Cql.Props.C10
+#audit_namespace Cql.Props.C10Dispatch
